@@ -117,6 +117,8 @@ def __signature_to_member(sig: JSONSignatureDict) -> HeaderMember:
     if "protected" in sig:
         protected_segment = sig["protected"]
         member.protected = json_b64decode(protected_segment)
+        if not isinstance(member.protected, dict):
+            raise DecodeError("Invalid header")
     if "header" in sig:
         member.header = sig["header"]
     return member
